@@ -16,7 +16,9 @@ META = {
              "position, Reinit, warm-up on/off, all (N, Nb) of the stateless interface), checks Consecutive / Tracks / CallbackOnce "
              "/ Length / AppendOnly / LegacyOK on every intermediate state (three named deviations are required to violate them), "
              "and every emitted behaviour is replayed on all samplers of both interfaces against an uninterrupted reference run; "
-             "recorded executions are validated against the trace refinement of the same spec."),
+             "recorded executions are validated against the trace refinement of the same spec. BayesianProblem.sample_posterior is "
+             "run on every dispatch branch x both sampler families: the chain handed to the user is the last Ns states produced (the "
+             "LegacySample rule of the spec), seen through the documented callback."),
     "note": ("Targets are small (dim 1-4); chains compared at rtol 1e-9 (RegularizedLinearRTO re-estimates its step size); the "
              "random stream is restored to the position of the checkpoint as the property presupposes. HybridGibbs offers no "
              "checkpoint / reinitialize / callback API: only continuity, length and append-only are decided for it."),
@@ -716,6 +718,83 @@ def batch_facet(ctx, workdir):
 
 
 # ----------------------------------------------------------------------------------------------------------
+def bp_problems():
+    """one small Bayesian problem per dispatch branch of BayesianProblem.sample_posterior"""
+    import cuqi
+    from cuqi.distribution import Gaussian, GMRF, LMRF
+    n = 4
+    A = np.eye(n) + 0.3 * np.diag(np.ones(n - 1), 1)
+    lin = cuqi.model.LinearModel(A)
+    data = A @ np.array([0.3, -0.5, 0.8, 0.1]) + 0.01
+    nonlin = lambda z: np.tanh(z) + 0.1 * z ** 3
+    out = {}
+
+    def mk(name, prior, model, sigma2=0.05 ** 2):
+        def f():
+            x = prior()
+            y = Gaussian(model()(x), sigma2)
+            return cuqi.problem.BayesianProblem(y, x).set_data(y=np.array(data, copy=True))
+        out[name] = f
+    mk("direct", lambda: Gaussian(np.zeros(n), 1.0), lambda: cuqi.model.LinearModel(A))
+    mk("LinearRTO", lambda: GMRF(np.zeros(n), 4.0), lambda: cuqi.model.LinearModel(A))
+    mk("UGLA", lambda: LMRF(0, 0.5, geometry=n), lambda: cuqi.model.LinearModel(A))
+    mk("NUTS", lambda: Gaussian(np.zeros(n), 1.0),
+       lambda: cuqi.model.Model(nonlin, range_geometry=n, domain_geometry=n, gradient=lambda d, z: d * (1 - np.tanh(z) ** 2 + 0.3 * z ** 2)))
+    mk("pCN", lambda: Gaussian(np.zeros(n), 1.0), lambda: cuqi.model.Model(nonlin, range_geometry=n, domain_geometry=n))
+    mk("RegularizedLinearRTO", lambda: cuqi.implicitprior.RegularizedGaussian(np.zeros(n), 1.0, constraint="nonnegativity"),
+       lambda: cuqi.model.LinearModel(A))
+    return out
+
+
+def bp_facet(ctx):
+    """BayesianProblem.sample_posterior(Ns, Nb) wraps a sampler run: what it hands to the user is governed by the same rule as the
+    stateless interface of SamplerLife.tla (LegacySample: `ret = SubSeq(chain, Nb + 1, N + Nb)`, burn-in discarded, the last N
+    states) - for every dispatch branch, both sampler families, with the states produced seen through the documented callback."""
+    from cuqiverif import zoo
+    for name, fac in bp_problems().items():
+        for experimental in (False, True):
+            for Ns, Nb in ((12, 3), (10, 0), (10, None), (11, 5)):      # the adaptive stateless samplers need N >= 10
+                states = []
+
+                def callback(sample, idx):
+                    states.append(np.array(sample, dtype=float).reshape(-1).copy())
+                case = {"kind": "bp", "problem": name, "experimental": experimental, "Ns": Ns, "Nb": Nb}
+                ctx.case(("bp", name, experimental, Ns, Nb))
+                try:
+                    with zoo.quiet():
+                        np.random.seed(4100 + ctx.seed)
+                        bp = fac()
+                        if Nb is None:
+                            res = bp.sample_posterior(Ns, callback=callback, experimental=experimental)
+                        else:
+                            res = bp.sample_posterior(Ns, Nb, callback=callback, experimental=experimental)
+                except Exception as ex:
+                    k = "bp_refused/%s/%s" % (name, "exp" if experimental else "leg")
+                    ctx.observations[k] = "%s: %s" % (type(ex).__name__, str(ex)[:80])
+                    continue
+                R = np.asarray(res.samples, dtype=float)
+                R = R.reshape(1, -1) if R.ndim == 1 else R
+                sig = "bp/%s/%s/Ns=%d/Nb=%s" % (name, "exp" if experimental else "leg", Ns, Nb)
+                ctx.facets["bp/" + name + ("/exp" if experimental else "/leg")] = ctx.facets.get("bp/" + name + ("/exp" if experimental else "/leg"), 0) + 1
+                if R.shape[1] != Ns:
+                    ctx.mismatch(sig + "/length", case, "sample_posterior(Ns=%d, Nb=%s) returned %d states" % (Ns, Nb, R.shape[1]), Ns, R.shape[1])
+                    continue
+                C = states
+                if len(C) >= Ns:
+                    exp = np.array(C[-Ns:]).T
+                    got = R
+                elif len(C) == Ns - 1 and Ns > 1:
+                    exp = np.array(C).T
+                    got = R[:, 1:]
+                else:
+                    ctx.facets["bp_callback_not_per_state/" + name] = ctx.facets.get("bp_callback_not_per_state/" + name, 0) + 1
+                    continue
+                if exp.shape != got.shape or not np.array_equal(exp, got):
+                    ctx.mismatch(sig + "/states", case, "the chain handed to the user is not the last Ns states the sampler produced "
+                                 "(as seen through the callback)", exp, got)
+                ctx.traces += 1
+
+
 def _select(cases, rnd, limit):
     if limit is None or len(cases) <= limit:
         return cases
@@ -797,6 +876,9 @@ def run(ctx):
         ctx.sample({"sampler": "legacy MH", "behaviour": legacy[-1]})
         trace_facet(ctx, workdir)
         batch_facet(ctx, workdir)
+        bp_facet(ctx)
+        if sum(1 for k in ctx.facets if k.startswith("bp/")) < 8:
+            raise MachineryError("vacuous: BayesianProblem.sample_posterior facet ran on fewer than 8 (branch, interface) pairs")
     finally:
         import shutil
         shutil.rmtree(workdir, ignore_errors=True)
